@@ -131,7 +131,7 @@ def drive(ctx, binary, W, behs, random=0, trace_sample=0, perm_limit=24, seed=No
 
 def report_mismatches(ctx, W, mism):
     # smallest rule set first: the most specific failing input
-    mism.sort(key=lambda m: (len((m.get("beh") or {}).get("ps", [])), json.dumps(m, sort_keys=True)))
+    mism.sort(key=lambda m: (len((m.get("beh") or {}).get("ps") or []), json.dumps(m, sort_keys=True)))
     seen = set()
     for m in mism:
         key = (m["api"], json.dumps((m.get("beh") or {}).get("ps")))
